@@ -59,6 +59,7 @@ class Ctx:
         self.violations = []
         self.problems = []          # harness errors / timeouts -> inconclusive
         self.case = None
+        self.slow = []
 
     # -- observation accounting -------------------------------------------
     def count(self, name, n=1):
@@ -184,9 +185,12 @@ def run_cases(mod, ctx, cases, timeout):
         ctx.case = [name, args]
         fn = getattr(mod, "case_" + name)
         signal.alarm(timeout)
+        t0 = time.time()
         try:
             fn(ctx, **args)
             ctx.counters["cases"] += 1
+            ctx.slow.append((round(time.time() - t0, 2), jsonable(ctx.case)))
+            ctx.slow = sorted(ctx.slow, key=lambda x: -x[0])[:3]
         except CaseTimeout:
             ctx.problems.append({"kind": "timeout", "case": jsonable(ctx.case)})
         except Exception:
@@ -214,7 +218,7 @@ def worker_main(argv):
         reach.stop()
     res = {"counters": dict(ctx.counters), "keys": sorted(ctx.keys),
            "samples": ctx.samples, "violations": ctx.violations,
-           "problems": ctx.problems, "lines": sorted(reach.lines)}
+           "problems": ctx.problems, "lines": sorted(reach.lines), "slow": ctx.slow}
     with open(out, "w") as f:
         json.dump(res, f)
 
@@ -241,7 +245,7 @@ def run_property(pid, tier, seed, jobs=None, replay=None):
     scratch = os.path.join(os.environ.get("TMPDIR", "/tmp"), "vmon-%s-%d" % (pid, os.getpid()))
     os.makedirs(scratch, exist_ok=True)
     merged = {"counters": collections.Counter(), "keys": set(), "samples": [],
-              "violations": [], "problems": [], "lines": set()}
+              "violations": [], "problems": [], "lines": set(), "slow": []}
 
     if replay:
         data = json.load(open(replay))
@@ -280,6 +284,7 @@ def run_property(pid, tier, seed, jobs=None, replay=None):
                 merged["violations"].extend(res.get("violations", ()))
                 merged["problems"].extend(res.get("problems", ()))
                 merged["lines"].update(tuple(x) for x in res.get("lines", ()))
+                merged["slow"] = sorted(merged["slow"] + [tuple(x) for x in res.get("slow", ())], key=lambda x: -x[0])[:3]
     try:
         os.rmdir(scratch)
     except OSError:
@@ -360,6 +365,7 @@ def write_evidence(pid, tier, seed, mod, merged, wall, nviol, known_hit, inconcl
         "anchor_lines_executed": reach,
         "known_findings_reproduced": known_hit,
         "inconclusive_reasons": inconclusive[:10],
+        "slowest_cases_s": [[t, str(c)[:160]] for t, c in merged.get("slow", [])],
     }
     sub = getattr(mod, "EXHAUSTIVE_SUBSPACES", None)
     if sub:
